@@ -126,8 +126,19 @@ pub fn begin_run(sim: &Sim) {
     st.sig.expected = [0; N_SIG];
 }
 
+/// a Signals source whose last owner went away has been dropped: its mask is released (with two
+/// sources this can happen to one of them in the middle of a dispatch while the other goes on)
+fn reap(sim: &Sim) {
+    let mut st = sim.st.borrow_mut();
+    let gone: Vec<Id> = st.srcs.iter().filter(|(_, s)| matches!(&s.k, K::Sig(k) if k.alive) && s.sh.dropped.get() > 0).map(|(i, _)| *i).collect();
+    for id in gone {
+        source_dropped(&mut st, id);
+    }
+}
+
 /// after every operation: thread mask and handler counters against the model
 pub fn check(sim: &Sim, when: &'static str) {
+    reap(sim);
     let st = sim.st.borrow();
     if !st.sig.used {
         return;
@@ -167,6 +178,7 @@ pub fn check(sim: &Sim, when: &'static str) {
 
 pub fn sig_new(sim: &Sim, id: Id, sigs: &[u8], script: &Script) {
     let Some(h) = sim.st.borrow().handle.clone() else { return };
+    reap(sim);
     {
         let st = sim.st.borrow();
         if st.srcs.contains_key(&id) || live_sources(&st).len() >= 2 {
@@ -174,6 +186,7 @@ pub fn sig_new(sim: &Sim, id: Id, sigs: &[u8], script: &Script) {
         }
     }
     sim.st.borrow_mut().sig.used = true;
+    reap(sim);
     let taken = taken_by_others(&sim.st.borrow(), id);
     let sigs: Vec<u8> = sigs.iter().copied().filter(|s| !taken.contains(s)).collect();
     let sigs = &sigs[..];
@@ -217,6 +230,7 @@ pub fn sig_change(sim: &Sim, id: Id, how: u8, sigs: &[u8]) {
     if in_proc {
         return;
     }
+    reap(sim);
     let taken = taken_by_others(&sim.st.borrow(), id);
     if taken.iter().next().is_some() {
         sim.probe("signals_two_sources_change");
@@ -270,6 +284,7 @@ pub fn raise(sim: &Sim, sig: u8, process_directed: bool) {
     if sig as usize >= N_SIG || !sim.st.borrow().sig.used {
         return;
     }
+    reap(sim);
     {
         let mut st = sim.st.borrow_mut();
         let mut blocked = false;
